@@ -10,20 +10,22 @@ let run_tx id cfg ops =
   let st = ref (eg_init (zs (cfg_get cfg "fbuf" "1500")) Z0
                   (nat_of_int (int_of_string (cfg_get cfg "socks" "1")))) in
   let idents : (int, int) Hashtbl.t = Hashtbl.create 16 in
-  let show (p : ip4pkt) =
+  let show ((hw, p) : z * ip4pkt) =
     if p_is_fragment p then begin
       let i = int_of_z p.p_ident in
       let k = match Hashtbl.find_opt idents i with
         | Some k -> k
         | None -> let k = Hashtbl.length idents in Hashtbl.add idents i k; k in
-      Printf.printf "tx f%d %s %d %d %08x\n" k (sz p.p_offset) (if p.p_mf then 1 else 0)
-        (List.length p.p_payload) (fnv p.p_payload)
+      Printf.printf "tx f%d %s %d %d %08x to=%s\n" k (sz p.p_offset) (if p.p_mf then 1 else 0)
+        (List.length p.p_payload) (fnv p.p_payload) (sz hw)
     end else
-      Printf.printf "tx nf 0 0 %d %08x\n" (List.length p.p_payload) (fnv p.p_payload) in
+      Printf.printf "tx nf 0 0 %d %08x to=%s\n" (List.length p.p_payload) (fnv p.p_payload) (sz hw) in
+  (* neighbour number nb (default 0) -> link-layer address id nb+1 (0 = EthernetAddress::default()) *)
+  let hw_of = function [] -> z_of_int 1 | nb :: _ -> z_of_int (int_of_string nb + 1) in
   List.iter (fun op ->
     let o = match words op with
-      | ["send"; i; h] -> ESend (nat_of_int (int_of_string i), bytes_of_hex h)
-      | "echo" :: reply :: _ -> ERecv (bytes_of_hex reply)
+      | "send" :: i :: h :: nb -> ESend (nat_of_int (int_of_string i), (hw_of nb, bytes_of_hex h))
+      | "echo" :: reply :: _ :: nb -> ERecv (hw_of nb, bytes_of_hex reply)
       | ["poll"; b] -> let b = int_of_string b in EPoll (if b < 0 then None else Some (z_of_int b))
       | _ -> failwith ("bad op " ^ op) in
     let (st', out) = eg_step ip_mtu !st o in
